@@ -18,13 +18,14 @@ import (
 
 // Params are the consensus parameters a generated world runs under.
 type Params struct {
-	Epoch         uint64 `json:"epoch"`          // blocks per epoch (3..5)
-	Validators    int    `json:"validators"`     // number of federation keys (1..10)
-	VoteLock      uint64 `json:"vote_lock"`      // vote lock in blocks for heights < VoteLockSwitch
-	VoteLock2     uint64 `json:"vote_lock2"`     // lock for heights >= VoteLockSwitch (0 = single range)
+	Epoch          uint64 `json:"epoch"`      // blocks per epoch (3..5)
+	Validators     int    `json:"validators"` // number of federation keys (1..10)
+	VoteLock       uint64 `json:"vote_lock"`  // vote lock in blocks for heights < VoteLockSwitch
+	VoteLock2      uint64 `json:"vote_lock2"` // lock for heights >= VoteLockSwitch (0 = single range)
 	VoteLockSwitch uint64 `json:"vote_lock_switch"`
-	MinVotes      uint64 `json:"min_votes"`      // MinValidatorVoteNum
-	NodeKey       int    `json:"node_key"`       // index of the key the node signs with; -1 = a key that is never a validator
+	MinVotes       uint64 `json:"min_votes"`               // MinValidatorVoteNum
+	NodeKey        int    `json:"node_key"`                // index of the key the node signs with; -1 = a key that is never a validator
+	MaxOffsetMs    uint64 `json:"max_offset_ms,omitempty"` // allowed lead of a block timestamp over the wall clock; 0 = unbounded (2^50 ms)
 }
 
 const (
@@ -110,7 +111,7 @@ func (p Params) Install() {
 		Bech32HRPSegwit: "bn",
 		CasperConfig: consensus.CasperConfig{
 			BlockTimeInterval:    IntervalMs,
-			MaxTimeOffsetMs:      uint64(1) << 50,
+			MaxTimeOffsetMs:      p.maxOffset(),
 			BlocksOfEpoch:        p.Epoch,
 			MinValidatorVoteNum:  p.MinVotes,
 			VotePendingBlockNums: locks,
@@ -138,3 +139,14 @@ func (p Params) Lock(height uint64) uint64 {
 	}
 	return p.VoteLock
 }
+
+func (p Params) maxOffset() uint64 {
+	if p.MaxOffsetMs != 0 {
+		return p.MaxOffsetMs
+	}
+	return uint64(1) << 50
+}
+
+// FarFutureMs is added to a parent's timestamp by the "timestamp-future" mutation: generated
+// worlds live in 2020, this lands in the 2060s, beyond any bounded MaxOffsetMs.
+const FarFutureMs = uint64(40*365*24*3600) * 1000
